@@ -133,9 +133,15 @@ def cReentry (sc : Scen) (_ : List Junk) (o : RunObs) : Bool :=
 def cResult (sc : Scen) (jb : List Junk) (o : RunObs) : Bool :=
   refused jb || o.result == expected sc
 
+/-- the signals the property names (independent of what the code's table says) -/
+def mustPreserve (s : Nat) : Bool :=
+  match sigNames[s]? with
+  | some n => ["SIGINT", "SIGTERM", "SIGCHLD"].contains n
+  | none => false
+
 def preservedSame : Nat → List Nat → List Nat → Bool
   | _, [], [] => true
-  | s, a :: as, b :: bs => (!preserved s || a == b) && preservedSame (s + 1) as bs
+  | s, a :: as, b :: bs => (!mustPreserve s || a == b) && preservedSame (s + 1) as bs
   | _, _, _ => false
 
 /-- afterwards: not running, nothing pending, no selectables, `reactor.stop` and the preserved signal
